@@ -98,7 +98,7 @@ func c18GenSchemaX(r *core.Rng, rich bool) (*yang.Stmt, *snode) {
 					"del\x7fx", "tag\U000E0001x", "nbsp\u00a0x", "zw\u200bx", "\ufeffbom", "c1\u0085x", "ls\u2028x"}, "string"
 			default:
 				s.Add(yang.S("type", "int32"))
-				sn.vals, sn.typeName = []string{"-2147483648", "2147483647", "0", "42"}, "int32"
+				sn.vals, sn.typeName = []string{"-2147483648", "2147483647", "0", "42", "+42", "-007", "-0"}, "int32"
 			}
 			sn.rtype = yang.RTypeFromStmt(s.Find("type"), nil)
 			if sn.typeName == "identityref" {
@@ -118,6 +118,10 @@ func c18GenSchemaX(r *core.Rng, rich bool) (*yang.Stmt, *snode) {
 		case 1:
 			s.Add(yang.S("type", "uint8"))
 			sn.vals = []string{"0", "1", "2", "7", "255"}
+			if rich {
+				// other lexical forms of the same values
+				sn.vals = append(sn.vals, "+7", "007", "+0")
+			}
 		case 2:
 			s.Add(yang.S("type", "boolean"))
 			sn.vals = []string{"true", "false"}
